@@ -3,7 +3,10 @@
     On every run every element the wrapped iterator has yielded is in exactly one place: moved out to
     a caller, destroyed by the machinery, sitting in a slot of a thread's buffered iterator, or held
     by a thread that has not returned yet.  The invariant is stated on lists of POSITIONS up to
-    permutation: the positions of these four places are a permutation of [0, cursor). *)
+    permutation: the positions of these four places are a permutation of [0, cursor).
+
+    The wrapped iterator need not be fused: what a thread holds inside its critical section are the
+    positions the wrapped iterator really yielded to it ([got_of]), whatever the index of its ticket. *)
 From Coq Require Import Lia ZArith List Permutation.
 From OCI Require Import Machine Checkers.
 From OCI.proofs Require Import Base Trace ArithOk InvKnown ChkKnown IterBase IterProt InvIterA ChkIter Borrowed Fold.
@@ -221,8 +224,12 @@ Qed.
 Definition slots_pos (ts : tstate) : list N :=
   match t_buf ts with Some bf => slot_vals (bf_slots bf) | None => [] end.
 
+(** what a thread holds: the closure invocations of its running loop and the positions it has taken
+    from the wrapped iterator in its current critical section *)
+Definition hpos (ts : tstate) : list N := positions_of (acc_iv e ts) ++ got_of (t_pc ts).
+
 (** what a thread owns: what it holds and the contents of the slots *)
-Definition own (ts : tstate) : list N := positions_of (held e ts) ++ slots_pos ts.
+Definition own (ts : tstate) : list N := hpos ts ++ slots_pos ts.
 
 Definition owns (pool : tid -> tstate) : list N := gather (fun t => own (pool t)) L.
 
@@ -290,32 +297,28 @@ Qed.
 (** a step that only moves the program counter, the holdings being the same positions *)
 Lemma led_silent c t sh' p' l :
   Led c -> In t L ->
-  positions_of (held e (set_pc (c_pool c t) p')) = positions_of (held e (c_pool c t)) ->
+  got_of p' = got_of (t_pc (c_pool c t)) ->
   s_cur sh' = s_cur (c_sh c) ->
   Led (commit c t sh' (set_pc (c_pool c t) p') l []).
 Proof.
   intros I Hin E Ec. apply led_commit0; try assumption.
-  - unfold own, slots_pos. cbn [set_pc t_buf evs_pos app]. rewrite E. apply Permutation_refl.
+  - unfold own, hpos, slots_pos, acc_iv. cbn [set_pc t_buf t_pc t_acc evs_pos app]. rewrite E. apply Permutation_refl.
   - unfold slots_ok. cbn [set_pc t_buf]. apply (l_slots c I).
 Qed.
 
 (** ** delivering a finished pull *)
 
-Lemma deliver_end_led t ts q ts' o X :
+Lemma deliver_end_led t ts q ts' o :
   deliver e ts q (Ok PREnd) = (ts', o) ->
-  held e ts = acc_iv e ts ++ X -> positions_of X = [] ->
+  got_of (t_pc ts) = [] ->
   (q_ctx q = CTop -> t_acc ts = []) ->
   Permutation (evs_pos (ret_ev t o) ++ own ts') (own ts) /\ t_buf ts' = t_buf ts.
 Proof.
-  unfold deliver. intros E Hh HX Hacc. destruct (q_ctx q) as [|lk crash].
+  unfold deliver. intros E Hg Hacc. destruct (q_ctx q) as [|lk crash].
   - injection E as <- <-. split; [|reflexivity]. cbn [ret_ev]. rewrite evs_pos_ret. cbn [res_taken drops_iv map].
-    unfold own, slots_pos. cbn [set_pc t_buf]. rewrite Hh.
-    assert (held e (set_pc ts PIdle) = acc_iv e ts ++ []) as -> by reflexivity.
-    rewrite !positions_of_app, HX. apply Permutation_refl.
+    unfold own, hpos, slots_pos, acc_iv. cbn [set_pc t_buf t_pc t_acc got_of]. rewrite Hg. apply Permutation_refl.
   - injection E as <- <-. split; [|reflexivity]. cbn [ret_ev]. rewrite evs_pos_ret. cbn [res_taken drops_iv map].
-    unfold own, slots_pos. cbn [t_buf]. rewrite Hh.
-    assert (held e {| t_pc := PIdle; t_todo := t_todo ts; t_buf := t_buf ts; t_acc := [] |} = []) as -> by reflexivity.
-    rewrite !positions_of_app, HX. unfold acc_iv. rewrite map_rev.
+    unfold own, hpos, slots_pos, acc_iv. cbn [t_buf t_pc t_acc got_of map]. rewrite Hg. rewrite map_rev.
     pose proof (positions_of_rev (map (run_iv e) (t_acc ts))) as Pr.
     cbn [positions_of flat_map app]. rewrite !app_nil_r. rewrite Pr. apply Permutation_refl.
 Qed.
@@ -330,87 +333,106 @@ Proof.
     symmetry. apply iv_positions_zero. cbn [snd]. lia.
 Qed.
 
-Lemma deliver_got_led t ts q b cnt ts' o :
-  deliver e ts q (Ok (PRGot b [mk_run (Some b) (val_of e b) cnt] cnt)) = (ts', o) ->
-  held e ts = acc_iv e ts ++ [(b, cnt)] ->
+(** invoking the closure of a loop on the run of positions [p, p + cnt) delivered under index [i] *)
+Lemma loop_invoke_pos l crash done i p cnt :
+  p < e_len e -> 1 <= cnt ->
+  exists inv pan, loop_invoke l crash done [mk_run (Some i) (val_of e p) cnt] cnt = (inv, pan) /\
+    match pan with
+    | None => map (run_iv e) inv = [(p, cnt)]
+    | Some used => 1 <= used /\ used <= cnt /\ map (run_iv e) inv = [(p, used)]
+    end.
+Proof.
+  intros Hb Hc. unfold loop_invoke.
+  set (shape := match l with LEnum => fun r => r | _ => strip_idx end).
+  assert (Hshape : forall r, run_iv e (shape r) = run_iv e r) by (intros r; unfold shape; destruct l; reflexivity).
+  destruct crash as [k|].
+  - destruct (N.leb_spec done k) as [H1|H1]; cbn [andb].
+    + destruct (N.ltb_spec k (done + cnt)) as [H2|H2].
+      * eexists _, _. split; [reflexivity|]. rewrite runs_take_one by lia. split; [lia|]. split; [lia|].
+        cbn [map]. rewrite Hshape, run_iv_at by assumption. reflexivity.
+      * eexists _, _. split; [reflexivity|]. cbn [map]. rewrite Hshape, run_iv_at by assumption. reflexivity.
+    + eexists _, _. split; [reflexivity|]. cbn [map]. rewrite Hshape, run_iv_at by assumption. reflexivity.
+  - eexists _, _. split; [reflexivity|]. cbn [map]. rewrite Hshape, run_iv_at by assumption. reflexivity.
+Qed.
+
+(** a pull returns the positions [p, p + cnt) it took from the wrapped iterator (under the index [b]
+    of its ticket, which is [p] when the wrapped iterator is fused) *)
+Lemma deliver_got_led t ts q b p cnt ts' o :
+  deliver e ts q (Ok (PRGot b [mk_run (Some b) (val_of e p) cnt] cnt)) = (ts', o) ->
+  Permutation (got_of (t_pc ts)) (iv_positions (p, cnt)) ->
   (q_ctx q = CTop -> t_acc ts = []) ->
-  1 <= cnt -> b < e_len e ->
+  1 <= cnt -> p < e_len e ->
   (forall k bf, q_ctx q = CTop -> q_mode q = MBuf k -> t_buf ts = Some bf -> cnt <= bf_c bf) ->
   slots_ok ts ->
   Permutation (evs_pos (ret_ev t o) ++ own ts') (own ts) /\ slots_ok ts'.
 Proof.
-  unfold deliver. intros E Hh Hacc Hc Hb Hbuf Hs.
+  unfold deliver. intros E Pg Hacc Hc Hb Hbuf Hs.
   assert (Hchunk : forall k,
-    Permutation (evs_pos [ERet t (chunk_res b [mk_run (Some b) (val_of e b) cnt] cnt (N.min k cnt))
-                              (drops_after e (N.min k cnt) [mk_run (Some b) (val_of e b) cnt])] ++ own (set_pc ts PIdle)) (own ts)).
+    Permutation (evs_pos [ERet t (chunk_res b [mk_run (Some b) (val_of e p) cnt] cnt (N.min k cnt))
+                              (drops_after e (N.min k cnt) [mk_run (Some b) (val_of e p) cnt])] ++ own (set_pc ts PIdle)) (own ts)).
   { intros k. rewrite evs_pos_ret. unfold chunk_res. cbn [res_taken].
     rewrite runs_take_map by (assumption || lia). rewrite drops_after_one by (assumption || lia). rewrite Hown.
-    rewrite chunk_pos by lia. unfold own, slots_pos. cbn [set_pc t_buf]. rewrite Hh.
-    assert (held e (set_pc ts PIdle) = acc_iv e ts ++ []) as -> by reflexivity.
-    rewrite !positions_of_app, positions_of_cons. cbn [positions_of flat_map]. rewrite !app_nil_r. perm_count. }
+    rewrite chunk_pos by lia. unfold own, hpos, slots_pos, acc_iv. cbn [set_pc t_buf t_pc t_acc got_of]. perm_count. }
   destruct (q_ctx q) as [|lk crash] eqn:Ctx.
   - specialize (Hacc eq_refl).
-    destruct (deliver_top e ts q b [mk_run (Some b) (val_of e b) cnt] cnt) as [ts1 [r d]] eqn:Ed.
+    destruct (deliver_top e ts q b [mk_run (Some b) (val_of e p) cnt] cnt) as [ts1 [r d]] eqn:Ed.
     injection E as <- <-. cbn [ret_ev]. unfold deliver_top in Ed.
     destruct (q_mode q) as [v|k|k] eqn:M.
     + injection Ed as <- <- <-. split; [|exact Hs]. rewrite evs_pos_ret.
-      assert (res_taken e (one_res (if reports_idx v then [mk_run (Some b) (val_of e b) cnt] else [strip_idx (mk_run (Some b) (val_of e b) cnt)])) = [(b, cnt)]) as ->.
+      assert (res_taken e (one_res (if reports_idx v then [mk_run (Some b) (val_of e p) cnt] else [strip_idx (mk_run (Some b) (val_of e p) cnt)])) = [(p, cnt)]) as ->.
       { destruct (reports_idx v); cbn [map one_res res_taken]; rewrite ?run_iv_strip, run_iv_at by assumption; reflexivity. }
-      unfold own, slots_pos. cbn [set_pc t_buf drops_iv map]. rewrite Hh.
-      assert (held e (set_pc ts PIdle) = acc_iv e ts ++ []) as -> by reflexivity.
-      rewrite !positions_of_app. cbn [positions_of flat_map]. rewrite !app_nil_r. perm_count.
+      unfold own, hpos, slots_pos, acc_iv. cbn [set_pc t_buf t_pc t_acc got_of drops_iv map].
+      rewrite positions_of_cons. cbn [positions_of flat_map]. rewrite !app_nil_r. perm_count.
     + injection Ed as <- <- <-. split; [apply Hchunk|exact Hs].
     + rewrite Hk in Ed. destruct (t_buf ts) as [bf|] eqn:Ebf.
       * (* the values go to the slots; the stale ones are destroyed; the caller takes the first ones *)
         pose proof (Hbuf k bf eq_refl eq_refl eq_refl) as Hcb. pose proof (Hs bf Ebf) as Hlen.
-        assert (Hvs : runs_vals [mk_run (Some b) (val_of e b) cnt] = ascN b (N.to_nat cnt)).
+        assert (Hvs : runs_vals [mk_run (Some b) (val_of e p) cnt] = ascN p (N.to_nat cnt)).
         { unfold runs_vals. cbn [flat_map mk_run r_val r_cnt]. rewrite app_nil_r, run_vals_asc, (val_of_iter e Hk). reflexivity. }
-        rewrite Hvs in Ed. set (vs := ascN b (N.to_nat cnt)) in *.
+        rewrite Hvs in Ed. set (vs := ascN p (N.to_nat cnt)) in *.
         assert (Hlv : length vs = N.to_nat cnt) by (unfold vs; apply ascN_length).
         rewrite write_slots_eq in Ed by (rewrite Hlv, Hlen; lia).
         injection Ed as <- <- <-. split.
         -- rewrite evs_pos_ret. unfold chunk_res. cbn [res_taken].
            rewrite runs_take_map by (assumption || lia). rewrite drops_list_pos.
-           unfold own, slots_pos. cbn [t_buf bf_slots]. rewrite Ebf, Hh.
-           match goal with |- context [held e ?x] => assert (held e x = []) as -> by (unfold held, acc_iv; cbn [t_pc t_acc]; rewrite Hacc; reflexivity) end.
+           unfold own, hpos, slots_pos, acc_iv. cbn [t_buf bf_slots t_pc t_acc got_of]. rewrite Ebf, Hacc.
+           cbn [map positions_of flat_map app].
            rewrite take_slots_vals by (rewrite Hlv; lia).
-           unfold acc_iv. rewrite Hacc. cbn [map app]. rewrite positions_of_cons. cbn [positions_of flat_map app]. rewrite app_nil_r.
-           assert (E1 : positions_of (if N.min k cnt =? 0 then [] else [(b, N.min k cnt)]) = firstn (N.to_nat (N.min k cnt)) vs).
+           assert (E1 : positions_of (if N.min k cnt =? 0 then [] else [(p, N.min k cnt)]) = firstn (N.to_nat (N.min k cnt)) vs).
            { unfold vs. rewrite firstn_ascN by lia. rewrite <- iv_positions_asc, N2Nat.id.
              destruct (N.eqb_spec (N.min k cnt) 0) as [->|]; [reflexivity|]. rewrite positions_of_cons. apply app_nil_r. }
-           assert (E2 : iv_positions (b, cnt) = vs) by (unfold vs; rewrite iv_positions_ascN; reflexivity).
-           rewrite E1, E2, Hlv.
+           assert (E2 : iv_positions (p, cnt) = vs) by (unfold vs; rewrite iv_positions_ascN; reflexivity).
+           rewrite E1, Hlv. rewrite E2 in Pg.
            pose proof (firstn_skipn (N.to_nat (N.min k cnt)) vs) as F1.
            pose proof (firstn_skipn (N.to_nat cnt) (bf_slots bf)) as F2.
            assert (F3 : slot_vals (bf_slots bf) = slot_vals (firstn (N.to_nat cnt) (bf_slots bf)) ++ slot_vals (skipn (N.to_nat cnt) (bf_slots bf)))
              by (rewrite <- slot_vals_app, F2; reflexivity).
            rewrite F3. clear F2 F3.
            set (f1 := firstn (N.to_nat (N.min k cnt)) vs) in *. set (s1 := skipn (N.to_nat (N.min k cnt)) vs) in *.
-           rewrite <- F1. perm_count.
+           rewrite <- F1 in Pg. perm_count.
         -- unfold slots_ok. cbn [t_buf]. intros bf' Ebf'. injection Ebf' as <-. cbn [bf_slots bf_c].
            rewrite take_slots_length, app_length, map_length, skipn_length, Hlv, Hlen. lia.
       * injection Ed as <- <- <-. split; [apply Hchunk|exact Hs].
   - (* inside a loop: the closure is invoked *)
     unfold deliver_loop in E.
-    destruct (loop_invoke_cases e lk crash (total_cnt (t_acc ts)) b cnt Hb Hc) as (inv & pan & Ei & _ & _ & Hinv).
+    destruct (loop_invoke_pos lk crash (total_cnt (t_acc ts)) b p cnt Hb Hc) as (inv & pan & Ei & Hinv).
     rewrite Ei in E. destruct pan as [used|].
     + destruct Hinv as (Hu1 & Hu2 & Hinv). injection E as <- <-. split; [|exact Hs].
       cbn [ret_ev]. rewrite evs_pos_ret. cbn [res_taken].
-      pose proof (drops_after_one e used (Some b) b cnt Hb Hu2) as Hd. cbn [drops_after mk_run r_cnt r_val] in Hd.
+      pose proof (drops_after_one e used (Some b) p cnt Hb Hu2) as Hd. cbn [drops_after mk_run r_cnt r_val] in Hd.
       rewrite Hd, Hown. clear Hd.
-      unfold own, slots_pos. cbn [t_buf]. rewrite Hh.
-      match goal with |- context [held e ?x] => assert (held e x = []) as -> by reflexivity end.
-      assert (Pa : Permutation (positions_of (map (run_iv e) (rev (rev inv ++ t_acc ts)))) (iv_positions (b, used) ++ positions_of (acc_iv e ts))).
+      unfold own, hpos, slots_pos, acc_iv. cbn [t_buf t_pc t_acc got_of map].
+      assert (Pa : Permutation (positions_of (map (run_iv e) (rev (rev inv ++ t_acc ts)))) (iv_positions (p, used) ++ positions_of (map (run_iv e) (t_acc ts)))).
       { rewrite map_rev, positions_of_rev, map_app, positions_of_app, map_rev, positions_of_rev, Hinv.
         rewrite positions_of_cons. cbn [positions_of flat_map]. rewrite app_nil_r. reflexivity. }
-      pose proof (chunk_pos b used cnt Hu2) as Ec. destruct (N.eqb_spec used 0) as [|_]; [lia|].
-      rewrite (positions_of_cons (b, used)) in Ec. cbn [positions_of flat_map] in Ec. rewrite app_nil_r in Ec.
-      rewrite !positions_of_app, (positions_of_cons (b, cnt)). cbn [positions_of flat_map app]. rewrite !app_nil_r.
-      rewrite <- Ec. perm_count.
+      pose proof (chunk_pos p used cnt Hu2) as Ec. destruct (N.eqb_spec used 0) as [|_]; [lia|].
+      rewrite (positions_of_cons (p, used)) in Ec. cbn [positions_of flat_map] in Ec. rewrite app_nil_r in Ec.
+      cbn [positions_of flat_map app]. rewrite <- Ec in Pg. perm_count.
     + injection E as <- <-. split; [|exact Hs]. cbn [ret_ev]. unfold evs_pos. cbn [taken_all dropped_all app positions_of flat_map].
-      unfold own, slots_pos. cbn [t_buf]. rewrite Hh. apply Permutation_app_tail.
-      unfold held, acc_iv. cbn [t_pc t_acc]. rewrite app_nil_r, map_app, map_rev.
-      rewrite !positions_of_app, positions_of_rev, Hinv. cbn [positions_of flat_map]. rewrite !app_nil_r. perm_count.
+      unfold own, hpos, slots_pos, acc_iv. cbn [t_buf t_pc t_acc got_of]. rewrite map_app, map_rev.
+      rewrite !positions_of_app. pose proof (positions_of_rev (map (run_iv e) inv)) as Pr. rewrite Hinv in Pr.
+      rewrite (positions_of_cons (p, cnt)) in Pr. cbn [positions_of flat_map] in Pr. rewrite app_nil_r in Pr.
+      rewrite Hinv. perm_count.
 Qed.
 
 (** ** every step preserves the ledger *)
@@ -425,15 +447,15 @@ Proof.
   destruct (H _ _ eq_refl) as [P S]. apply led_commit0; assumption.
 Qed.
 
-Lemma led_finish_end c t sh' l q X :
+Lemma led_finish_end c t sh' l q :
   IInvA e L c -> Led c -> In t L -> s_cur sh' = s_cur (c_sh c) ->
   req_of (t_pc (c_pool c t)) = Some q ->
-  held e (c_pool c t) = acc_iv e (c_pool c t) ++ X -> positions_of X = [] ->
+  got_of (t_pc (c_pool c t)) = [] ->
   Led (finish e c t sh' (c_pool c t) l q (Ok PREnd)).
 Proof.
-  intros A I Hin Ec Hreq Hh HX. destruct (ipc_req e L c t q A Hreq) as [_ Hacc].
+  intros A I Hin Ec Hreq Hg. destruct (ipc_req e L c t q A Hreq) as [_ Hacc].
   apply led_finish; try assumption. intros ts' o E.
-  destruct (deliver_end_led t _ _ _ _ X E Hh HX Hacc) as [P Eb]. split; [exact P|].
+  destruct (deliver_end_led t _ _ _ _ E Hg Hacc) as [P Eb]. split; [exact P|].
   unfold slots_ok. rewrite Eb. apply (l_slots c I).
 Qed.
 
@@ -444,7 +466,9 @@ Lemma led_ret_plain c t sh' r l :
 Proof.
   intros I Hin Cn Hr Ec. apply led_commit0; try assumption.
   - rewrite evs_pos_ret, Hr. cbn [drops_iv map positions_of flat_map app].
-    unfold own, slots_pos. cbn [set_pc t_buf]. rewrite held_set_pc_nocrit by (reflexivity || assumption). apply Permutation_refl.
+    unfold own, hpos, slots_pos, acc_iv. cbn [set_pc t_buf t_pc t_acc got_of].
+    assert (got_of (t_pc (c_pool c t)) = []) as -> by (destruct (t_pc (c_pool c t)); try reflexivity; discriminate Cn).
+    apply Permutation_refl.
   - unfold slots_ok. cbn [set_pc t_buf]. apply (l_slots c I).
 Qed.
 
@@ -465,7 +489,7 @@ Lemma led_call c t o rest :
 Proof.
   intros A I Hin Hpc Htodo.
   assert (Hacc : t_acc (c_pool c t) = []) by (apply (iacc_idle e L c t A); unfold is_idle; rewrite Hpc; reflexivity).
-  assert (Hheld : held e (c_pool c t) = []) by (apply held_idle; assumption).
+  assert (Hheld : hpos (c_pool c t) = []) by (unfold hpos, acc_iv; rewrite Hacc, Hpc; reflexivity).
   pose proof (l_slots c I t) as Hs.
   unfold call. destruct (call_res e (c_pool c t) o) as [p|b r d] eqn:E.
   - assert (Cp : in_crit p = false).
@@ -476,8 +500,8 @@ Proof.
       - destruct (n =? 0); [discriminate E|]. destruct (n =? 1); injection E as <-; reflexivity. }
     apply led_commit0; try assumption; try reflexivity.
     unfold own, slots_pos, evs_pos. cbn [t_buf taken_all dropped_all app positions_of flat_map]. rewrite Hheld.
-    assert (held e {| t_pc := p; t_todo := rest; t_buf := t_buf (c_pool c t); t_acc := [] |} = []) as ->.
-    { unfold held, acc_iv. cbn [t_pc t_acc map app]. destruct p; try reflexivity; discriminate Cp. }
+    assert (hpos {| t_pc := p; t_todo := rest; t_buf := t_buf (c_pool c t); t_acc := [] |} = []) as ->.
+    { unfold hpos, acc_iv. cbn [t_pc t_acc map app positions_of flat_map]. destruct p; try reflexivity; discriminate Cp. }
     apply Permutation_refl.
   - assert (Hr : Permutation (positions_of (res_taken e r) ++ positions_of (drops_iv d) ++
                               match b with Some bf => slot_vals (bf_slots bf) | None => [] end) (slots_pos (c_pool c t))
@@ -496,17 +520,15 @@ Proof.
       - destruct (n =? 0); [|destruct (n =? 1); discriminate E]. injection E as <- <- <-. split; [apply Permutation_refl|exact Hs]. }
     destruct Hr as [Pr Hb]. apply led_commit0; try assumption; try reflexivity; try exact Hb.
     rewrite evs_pos_ret_call. unfold own at 1. unfold slots_pos at 1. cbn [t_buf].
-    assert (held e {| t_pc := PIdle; t_todo := rest; t_buf := b; t_acc := [] |} = []) as -> by reflexivity.
+    assert (hpos {| t_pc := PIdle; t_todo := rest; t_buf := b; t_acc := [] |} = []) as -> by reflexivity.
     unfold own. rewrite Hheld. cbn [positions_of flat_map app]. rewrite <- Pr. rewrite <- app_assoc. apply Permutation_refl.
 Qed.
 
 Definition crit_at (x : pc) (b : N) (g : list N) : Prop :=
   match x with PSrc _ b' g' | PSetF _ b' g' | PPub _ b' g' | PUnw _ b' g' => b' = b /\ g' = g | _ => False end.
 
-Lemma held_crit ts x b g : crit_at x b g -> held e (set_pc ts x) = acc_iv e ts ++ [(b, N.of_nat (length g))].
-Proof.
-  intros H. unfold held, acc_iv. cbn [set_pc t_pc t_acc]. destruct x; try contradiction; destruct H as [-> ->]; reflexivity.
-Qed.
+Lemma got_crit x b g : crit_at x b g -> got_of x = g.
+Proof. intros H. destruct x; try contradiction; destruct H as [_ ->]; reflexivity. Qed.
 
 Lemma led_step c t : IInvA e L c -> Led c -> In t L -> istep_nowrap c t -> Led (step e c t).
 Proof.
@@ -518,42 +540,32 @@ Proof.
     + rewrite (istep_idle_nil e c t) by assumption. exact I.
     + rewrite (istep_idle_call e c t o rest) by assumption. apply led_call; assumption.
   - (* reserving *)
-    rewrite (istep_res e Hk c t q Hpc). apply led_silent; try assumption; [|reflexivity].
-    rewrite held_set_pc_nocrit; [reflexivity|reflexivity|rewrite Hpc; reflexivity].
+    rewrite (istep_res e Hk c t q Hpc). apply led_silent; try assumption; [|reflexivity]. rewrite Hpc. reflexivity.
   - (* the completed flag *)
     rewrite (istep_chkf e c t q b Hpc). destruct (s_f (c_sh c)).
-    + apply led_finish_end with (X := []); try assumption; try reflexivity; [rewrite Hpc; reflexivity|unfold held; rewrite Hpc; reflexivity].
-    + apply led_silent; try assumption; [|reflexivity].
-      rewrite held_set_pc_nocrit; [reflexivity|reflexivity|rewrite Hpc; reflexivity].
+    + apply led_finish_end; try assumption; try reflexivity; rewrite Hpc; reflexivity.
+    + apply led_silent; try assumption; [|reflexivity]. rewrite Hpc. reflexivity.
   - (* the yielded counter *)
     rewrite (istep_ldy e c t q b Hpc). destruct (b =? s_y (c_sh c)).
-    + apply led_silent; try assumption; [|reflexivity].
-      rewrite (held_crit _ _ b []) by (split; reflexivity). unfold held. rewrite Hpc. rewrite !positions_of_app. reflexivity.
+    + apply led_silent; try assumption; [|reflexivity]. rewrite Hpc. reflexivity.
     + destruct (b <? s_y (c_sh c)).
-      * apply led_finish_end with (X := []); try assumption; try reflexivity; [rewrite Hpc; reflexivity|unfold held; rewrite Hpc; reflexivity].
-      * apply led_silent; try assumption; [|reflexivity].
-        rewrite held_set_pc_nocrit; [reflexivity|reflexivity|rewrite Hpc; reflexivity].
+      * apply led_finish_end; try assumption; try reflexivity; rewrite Hpc; reflexivity.
+      * apply led_silent; try assumption; [|reflexivity]. rewrite Hpc. reflexivity.
   - (* one call of the wrapped iterator *)
-    assert (Tt : ticket (pcs_of c t) = Some (b, pub_incr q)) by (unfold pcs_of; rewrite Hpc; reflexivity).
-    assert (Ct : in_crit (pcs_of c t) = true) by (unfold pcs_of; rewrite Hpc; reflexivity).
-    pose proof (p_got _ _ _ _ _ P t _ _ Ct Tt) as [_ Hcur]. unfold pcs_of in Hcur. rewrite Hpc in Hcur. cbn [got_of] in Hcur.
-    assert (Hheld : held e (c_pool c t) = acc_iv e (c_pool c t) ++ [(b, N.of_nat (length g))]) by (unfold held; rewrite Hpc; reflexivity).
     assert (Hsame : forall x sh' l, crit_at x b g -> s_cur sh' = s_cur (c_sh c) -> Led (commit c t sh' (set_pc (c_pool c t) x) l [])).
-    { intros x sh' l Hx Ec. apply led_silent; try assumption. rewrite (held_crit _ _ b g Hx), Hheld. reflexivity. }
+    { intros x sh' l Hx Ec. apply led_silent; try assumption. rewrite (got_crit _ _ _ Hx), Hpc. reflexivity. }
     assert (Hsingle : forall v, q_mode q = MSingle v -> g = []).
     { intros v Mv. destruct (a_wf e L c A t) as (Hok & _ & _). unfold ipc_ok in Hok. rewrite Hpc in Hok. destruct Hok as (Hq & _ & Hlt).
       destruct Hq as (_ & _ & H1). rewrite (H1 _ Mv) in Hlt. destruct g; [reflexivity|cbn [length] in Hlt; lia]. }
     unfold step. rewrite Hpc.
     destruct (crashes_now e (c_sh c)); [apply Hsame; [split; reflexivity|reflexivity]|].
-    unfold src_next. destruct (N.ltb_spec (s_cur (c_sh c)) (e_len e)) as [Hsl|Hsl].
-    + assert (Hc : s_cur (c_sh c) = b + N.of_nat (length g)) by (destruct Hcur as [H|[_ H]]; [exact H|lia]).
-      assert (Hgo : forall x, crit_at x b (s_cur (c_sh c) :: g) ->
+    destruct (src_next_cases e (c_sh c)) as [[Es Hsl]|[Es _]]; rewrite Es.
+    + assert (Hgo : forall x, crit_at x b (s_cur (c_sh c) :: g) ->
                 Led (commit c t (with_src (c_sh c) (s_cur (c_sh c) + 1) (s_calls (c_sh c) + 1)) (set_pc (c_pool c t) x)
                             (LSrc t (Some (s_cur (c_sh c)))) [])).
       { intros x Hx. apply led_commit with (delta := [s_cur (c_sh c)]); try assumption.
-        - unfold own, slots_pos, evs_pos. cbn [set_pc t_buf taken_all dropped_all app positions_of flat_map].
-          rewrite (held_crit _ _ b _ Hx), Hheld. rewrite !positions_of_app, !positions_of_cons. cbn [positions_of flat_map length].
-          rewrite Nat2N.inj_succ, <- N.add_1_r, iv_positions_snoc, <- Hc. rewrite !app_nil_r. perm_count.
+        - unfold own, hpos, slots_pos, evs_pos, acc_iv. cbn [set_pc t_buf t_pc t_acc taken_all dropped_all app positions_of flat_map].
+          rewrite (got_crit _ _ _ Hx), Hpc. cbn [got_of]. change (s_cur (c_sh c) :: g) with ([s_cur (c_sh c)] ++ g). perm_count.
         - cbn [with_src s_cur]. rewrite iv_positions_snoc. cbn [N.add]. perm_count.
         - unfold slots_ok. cbn [set_pc t_buf]. apply (l_slots c I). }
       destruct (q_mode q) eqn:M.
@@ -564,26 +576,24 @@ Proof.
       * rewrite (Hsingle _ eq_refl) in *. apply Hsame; [split; reflexivity|reflexivity].
       * apply Hsame; [split; reflexivity|reflexivity].
       * apply Hsame; [split; reflexivity|reflexivity].
-  - (* the end of the source: raising the completed flag *)
+  - (* the wrapped iterator answered None: raising the completed flag *)
     rewrite (istep_setf e c t q b g Hpc).
     destruct (a_wf e L c A t) as (Hok & _ & _). unfold ipc_ok in Hok. rewrite Hpc in Hok. destruct Hok as (Hq & _ & Hlt).
-    assert (Hheld : held e (c_pool c t) = acc_iv e (c_pool c t) ++ [(b, N.of_nat (length g))]) by (unfold held; rewrite Hpc; reflexivity).
     destruct (q_mode q) eqn:M.
     + assert (g = []) as Hg0.
       { destruct Hq as (_ & _ & H1). rewrite (H1 _ M) in Hlt. destruct g; [reflexivity|cbn [length] in Hlt; lia]. }
       subst g.
-      apply led_finish_end with (X := [(b, N.of_nat 0)]); try assumption; try reflexivity. rewrite Hpc. reflexivity.
-    + apply led_silent; try assumption; [|reflexivity]. rewrite (held_crit _ _ b g) by (split; reflexivity). rewrite Hheld. reflexivity.
-    + apply led_silent; try assumption; [|reflexivity]. rewrite (held_crit _ _ b g) by (split; reflexivity). rewrite Hheld. reflexivity.
+      apply led_finish_end; try assumption; try reflexivity; rewrite Hpc; reflexivity.
+    + apply led_silent; try assumption; [|reflexivity]. rewrite Hpc. reflexivity.
+    + apply led_silent; try assumption; [|reflexivity]. rewrite Hpc. reflexivity.
   - (* publishing: the pull returns *)
-    destruct (pub_eq e Hk L c t q b g A Hpc Hw) as (Hb & Hq & Hcases).
-    assert (Hheld : held e (c_pool c t) = acc_iv e (c_pool c t) ++ [(b, N.of_nat (length g))]) by (unfold held; rewrite Hpc; reflexivity).
-    destruct Hcases as [(-> & _ & ->)|(cnt & Ecnt & H1 & H2 & H3 & H4 & H5 & H6 & ->)].
-    + apply led_finish_end with (X := [(b, N.of_nat 0)]); try assumption; try reflexivity. rewrite Hpc. reflexivity.
+    destruct (pub_gen e Hk L c t q b g A Hpc Hw) as (Hb & Hq & Hcases).
+    destruct Hcases as [(-> & ->)|(cnt & p & Ecnt & H1 & H2 & H3 & H4 & Hasc & H6 & ->)].
+    + apply led_finish_end; try assumption; try reflexivity; rewrite Hpc; reflexivity.
     + destruct (ipc_req e L c t q A) as [_ Hacc]; [rewrite Hpc; reflexivity|].
       apply led_finish; try assumption; [reflexivity|]. intros ts' o E.
-      apply (deliver_got_led t _ _ _ _ _ _ E); try assumption.
-      * rewrite Hheld, Ecnt. reflexivity.
+      apply (deliver_got_led t _ _ _ _ _ _ _ E); try assumption.
+      * rewrite Hpc. cbn [got_of]. rewrite Ecnt, iv_positions_asc, <- Hasc. apply Permutation_rev.
       * intros k bf Ctx M Ebf.
         pose proof (a_call e L c A t) as Hc. unfold icall_ok in Hc.
         assert (Hni : is_idle (c_pool c t) = false) by (unfold is_idle; rewrite Hpc; reflexivity).
@@ -591,23 +601,19 @@ Proof.
         rewrite <- (call_res_mbuf _ _ _ _ _ Hres Ctx M Ebf). exact H2.
       * apply (l_slots c I).
   - (* unwinding from a panic of the wrapped iterator *)
-    assert (Tt : ticket (pcs_of c t) = Some (b, pub_incr q)) by (unfold pcs_of; rewrite Hpc; reflexivity).
-    assert (Ct : in_crit (pcs_of c t) = true) by (unfold pcs_of; rewrite Hpc; reflexivity).
-    pose proof (p_got _ _ _ _ _ P t _ _ Ct Tt) as [Hasc _]. unfold pcs_of in Hasc. rewrite Hpc in Hasc. cbn [got_of] in Hasc.
-    assert (Hheld : held e (c_pool c t) = acc_iv e (c_pool c t) ++ [(b, N.of_nat (length g))]) by (unfold held; rewrite Hpc; reflexivity).
     destruct (ipc_req e L c t q A) as [Hq Hacc]; [rewrite Hpc; reflexivity|].
     destruct (a_wf e L c A t) as (Hok & _ & _). unfold ipc_ok in Hok. rewrite Hpc in Hok. destruct Hok as (_ & _ & Hlt).
+    pose proof (Permutation_rev g) as Prg.
     unfold step. rewrite Hpc.
     assert (Hgen : Led (commit c t (with_f (c_sh c) true)
               {| t_pc := PIdle; t_todo := t_todo (c_pool c t); t_buf := t_buf (c_pool c t); t_acc := [] |}
               (LAtom t SF AStore 1 0 ord_completed_store_unwind)
               [ERet t (RPanic PkSource (rev (t_acc (c_pool c t)))) (drops_of_list e (rev g))])).
     { apply led_commit0; try assumption; [|reflexivity|exact (l_slots c I t)].
-      rewrite evs_pos_ret, drops_list_pos. cbn [res_taken]. rewrite map_rev, positions_of_rev.
-      unfold own, slots_pos. cbn [t_buf]. rewrite Hheld.
-      match goal with |- context [held e ?x] => assert (held e x = []) as -> by reflexivity end.
-      rewrite positions_of_app, positions_of_cons, iv_positions_asc, <- Hasc. fold (acc_iv e (c_pool c t)).
-      cbn [positions_of flat_map app]. rewrite !app_nil_r. perm_count. }
+      rewrite evs_pos_ret, drops_list_pos. cbn [res_taken]. rewrite map_rev.
+      pose proof (positions_of_rev (map (run_iv e) (t_acc (c_pool c t)))) as Pa.
+      unfold own, hpos, slots_pos, acc_iv. cbn [t_buf t_pc t_acc got_of map positions_of flat_map app]. rewrite Hpc. cbn [got_of].
+      perm_count. }
     destruct (q_ctx q) eqn:Ctx; [|exact Hgen].
     destruct (q_mode q) eqn:M; try exact Hgen.
     rewrite Hk. destruct (t_buf (c_pool c t)) as [bf|] eqn:Ebf; [|exact Hgen].
@@ -621,10 +627,8 @@ Proof.
     rewrite write_slots_eq by (rewrite rev_length, Hlen; lia).
     apply led_commit0; try assumption; [|reflexivity|].
     + rewrite evs_pos_ret, drops_list_pos. rewrite Hacc. cbn [rev res_taken map positions_of flat_map app].
-      unfold own, slots_pos. cbn [t_buf bf_slots]. rewrite Ebf, Hheld.
-      match goal with |- context [held e ?x] => assert (held e x = []) as -> by reflexivity end.
-      unfold acc_iv. rewrite Hacc. cbn [map app]. rewrite positions_of_cons, iv_positions_asc, <- Hasc.
-      cbn [positions_of flat_map app]. rewrite app_nil_r, slot_vals_app, slot_vals_some, rev_length.
+      unfold own, hpos, slots_pos, acc_iv. cbn [t_buf bf_slots t_pc t_acc got_of map positions_of flat_map app]. rewrite Ebf, Hpc, Hacc.
+      cbn [got_of map positions_of flat_map app]. rewrite slot_vals_app, slot_vals_some, rev_length.
       pose proof (firstn_skipn (length g) (bf_slots bf)) as F2.
       assert (F3 : slot_vals (bf_slots bf) = slot_vals (firstn (length g) (bf_slots bf)) ++ slot_vals (skipn (length g) (bf_slots bf)))
         by (rewrite <- slot_vals_app, F2; reflexivity).
@@ -639,8 +643,7 @@ Proof.
     { intros r l Hr. apply led_ret_plain; try assumption; try reflexivity. rewrite Hpc. reflexivity. }
     destruct (s_f (c_sh c)); [apply Hplain; destruct hm; reflexivity|].
     destruct (e_hint e); try (apply Hplain; destruct hm; reflexivity).
-    apply led_silent; try assumption; [|reflexivity].
-    rewrite held_set_pc_nocrit; [reflexivity|reflexivity|rewrite Hpc; reflexivity].
+    apply led_silent; try assumption; [|reflexivity]. rewrite Hpc. reflexivity.
   - rewrite (istep_len2 e c t hm Hpc). apply led_ret_plain; try assumption; try reflexivity; [rewrite Hpc; reflexivity|destruct hm; reflexivity].
 Qed.
 
@@ -682,8 +685,19 @@ Proof.
   { apply (sumZ_zero (fun u => pendZ (c_pool c u)) L); [|exact Hq|exact Ht].
     intros u _. unfold pendZ. destruct (is_idle (c_pool c u)); lia. }
   unfold pendZ in Hz. destruct (is_idle (c_pool c t)) eqn:Ei; [|discriminate].
-  unfold own, slots_pos. rewrite (Hb t Ht). rewrite held_idle; [reflexivity| |apply (iacc_idle e L c t A Ei)].
+  unfold own, hpos, slots_pos, acc_iv. rewrite (Hb t Ht), (iacc_idle e L c t A Ei).
   unfold is_idle in Ei. destruct (t_pc (c_pool c t)); try discriminate. reflexivity.
+Qed.
+
+(** at such a point every element the wrapped iterator has yielded so far -- the positions [0, cursor),
+    whatever the wrapped iterator answered in between -- has been moved out or destroyed exactly once *)
+Lemma quiescent_tiles c : IInvA e L c -> Led c -> n_pending (c_trace c) = 0%Z ->
+  (forall t, In t L -> t_buf (c_pool c t) = None) ->
+  tiles (s_cur (c_sh c)) (taken_all e (c_trace c) ++ dropped_all (c_trace c)) = true.
+Proof.
+  intros A I Hq Hb. pose proof (l_perm c I) as P. rewrite (quiescent_owns c A Hq Hb) in P.
+  destruct (positions_tile _ _ _ P) as (Hd & Hw & Ht). cbn [length N.of_nat] in Ht. rewrite N.add_0_r in Ht.
+  unfold tiles. rewrite Hd, Hw, Ht, N.eqb_refl. reflexivity.
 Qed.
 
 (** the end of life: what the owner takes and what is destroyed is exactly the rest of the source *)
@@ -753,5 +767,23 @@ Proof.
   - unfold chk_C08. rewrite Ho. destruct (borrowed_source_untouched e Ho progs sched) as [_ H]. rewrite (H t f). reflexivity.
 Qed.
 
+(** every element the wrapped iterator has yielded is moved out or destroyed exactly once: at every
+    quiescent point at which no thread keeps a buffered iterator, the positions moved out to callers and the
+    positions destroyed tile [0, cursor) -- every wrapped iterator that owns its elements, fused or not *)
+Theorem iter_yielded_exactly_once : forall e, iter_env e -> e_owning e = true -> forall progs, wf_progs progs -> forall sched,
+  nowrap (c_labels (exec e (init progs) sched)) ->
+  n_pending (c_trace (exec e (init progs) sched)) = 0%Z ->
+  (forall t, In t (nodup Nat.eq_dec sched) -> t_buf (c_pool (exec e (init progs) sched) t) = None) ->
+  tiles (s_cur (c_sh (exec e (init progs) sched)))
+        (taken_all e (c_trace (exec e (init progs) sched)) ++ dropped_all (c_trace (exec e (init progs) sched))) = true.
+Proof.
+  intros e (He & Hk) Ho progs Hp sched Hw Hq Hb.
+  assert (HL : Forall (fun t => In t (nodup Nat.eq_dec sched)) sched) by (apply Forall_forall; intros u Hu; apply nodup_In; exact Hu).
+  apply quiescent_tiles with (L := nodup Nat.eq_dec sched); try assumption.
+  - apply (iA_exec e Hk _ (NoDup_nodup _ _)); assumption.
+  - apply (led_exec e Hk Ho _ (NoDup_nodup _ _)); assumption.
+Qed.
+
 Print Assumptions iter_C08_run.
+Print Assumptions iter_yielded_exactly_once.
 Print Assumptions iter_C08_final.
